@@ -43,6 +43,18 @@ Theorem T08_accept_only_wf : forall bs h rest, is_bytes bs = true ->
 Proof. exact (fun bs h rest => accept_only_wf src_cfg bs h rest ob_common ob_v1 ob_v2 ob_strict). Qed.
 Print Assumptions T08_accept_only_wf.
 
+(* ... also when the bytes arrive in arbitrary TCP segments; hence a connection whose bytes do not begin with a
+   well-formed header fails (Conn.Read returns the header error), whatever the segmentation *)
+Theorem T08_accept_only_wf_segmented : forall cs h rest, is_bytes (concat cs) = true ->
+  read_chunked src_cfg cs = Ok h rest -> exists hd, concat cs = hd ++ concat rest /\ wf_header hd (adv_of h).
+Proof. exact (accept_only_wf_segmented src_cfg T08_accept_only_wf). Qed.
+Print Assumptions T08_accept_only_wf_segmented.
+
+Theorem T08_malformed_fails : forall cs, is_bytes (concat cs) = true ->
+  (forall hd a rest, concat cs = hd ++ rest -> ~ wf_header hd a) -> exists t o, read_chunked src_cfg cs = Err t o.
+Proof. exact (malformed_fails_segmented src_cfg T08_accept_only_wf). Qed.
+Print Assumptions T08_malformed_fails.
+
 (* every way of cutting the byte stream into TCP segments gives the same result (accepted header or error class)
    and the same remaining bytes as the unsegmented stream — for every input, well formed or not *)
 Theorem T08_segmentation : forall cs,
